@@ -121,6 +121,20 @@ CHECKS = {
   "outside inode, no payload a canary token, and '..' from the root must yield the root. Held on the sessions run.",
   "tree without symlinks leaving it (premise); hostile names are bounded so that they cannot climb above the sandbox",
   "DESIGN.md §5 C18"),
+ "C19": ("racelab", "exploration",
+  "Go race detector (-race build of the worker, GORACE halt_on_error=0 log_path=...) over concurrent workloads; reports parsed and de-duplicated by the supervisor",
+  "2/8/32 goroutines share one client and work on their own files and directories against the real Ufs over a socketpair (walks start from the shared root fid), raw connections pipeline requests on "
+  "distinct fids and flush them against a stateless implementation, other connections come and go, logging on/off, Maxpend 0/4, both dialects, seeded repetitions with yields and sleeps injected at the "
+  "library's schedule points by a hook that touches no shared memory. Verdict: zero DATA RACE reports with a go9p frame. Held = no race observed in the runs made.",
+  "the detector sees only overlapping accesses within its history window; requests on a fid are only sent after the reply that created or changed the fid",
+  "DESIGN.md §5 C19"),
+ "C20": ("loglab", "exploration",
+  "online reference-ring monitor for sequential histories, offline order/prefix checker for concurrent ones, porcupine linearizability check of short histories",
+  "Capacities 1..64, sequences below/at/far above capacity, every owner/type filter: each sequential Filter result must be the filtered content of a ring window at a non-decreasing position and "
+  "converge exactly after logging stops (bounded polls); concurrent producers/filterers are checked for membership, match, order, duplicates, skipped entries, real-time order, and - with a ring large "
+  "enough to reveal the total order - for being a filtered prefix of that order; short histories go through porcupine with Log as an open-ended operation. Held on the histories run.",
+  "15 s watchdog for 'does not block'; porcupine timeouts are counted, never failed",
+  "DESIGN.md §5 C20"),
  "C04": ("srvlab", "exploration",
   "online reference-model monitor: every request/reply of sequential histories judged against an executable fid-table model, plus invocation/FidDestroy log of a scripted implementation",
   "The real server framework runs in-process with a scripted implementation over scripted in-memory connections; each step of (a) all (fid state x request x outcome) transitions on fresh "
@@ -163,6 +177,8 @@ def main():
              "kind_free_text": "go9p client library against the scripted raw peer (harness/peer) over scripted connections; client hook points through harness/sched"},
             {"name": "ufslab", "path": "harness/lab/ufslab", "serves_properties": ["C14", "C15", "C16", "C17", "C18"],
              "kind_free_text": "real Ufs on scratch trees, accessed through go9p's client and through raw connections; host file system and twin trees as reference"},
+            {"name": "racelab", "path": "harness/lab/racelab", "serves_properties": ["C19"], "kind_free_text": "concurrent workloads under the Go race detector; report parser"},
+            {"name": "loglab", "path": "harness/lab/loglab", "serves_properties": ["C20"], "kind_free_text": "Logger against a reference ring; porcupine for short concurrent histories"},
             {"name": "srvlab", "path": "harness/lab/srvlab", "serves_properties": ["C03", "C04", "C05", "C07", "C08", "C11", "C12", "C13"],
              "kind_free_text": "real server framework + scripted implementation (harness/script) over scripted connections (harness/memconn), schedule-point controller (harness/sched), reference models (harness/model)"},
         ],
